@@ -116,6 +116,10 @@ impl World {
     fn process_tap(&mut self) {
         let events: Vec<TapEvent> = std::mem::take(&mut *self.tap.borrow_mut());
         for ev in events {
+            // Nothing after the first violation: model and broker may have diverged.
+            if !self.violations.is_empty() {
+                break;
+            }
             match ev {
                 TapEvent::Input(i) => self.pending_input = Some(i),
                 TapEvent::Step(snap) => {
